@@ -280,6 +280,6 @@ def r4_fit_test(ctx: Context) -> None:
 
 
 def run(ctx: Context) -> None:
-    r1_sort_key(ctx)
-    r2_r3_greedy_loop(ctx)
-    r4_fit_test(ctx)
+    ctx.isolate(r1_sort_key)
+    ctx.isolate(r2_r3_greedy_loop)
+    ctx.isolate(r4_fit_test)
